@@ -149,6 +149,44 @@ func specialGame(r *rand.Rand, kind int) (ref.Pos, []ref.Move, string) {
 	return h.Start, h.Moves, "startpos+moves"
 }
 
+// moverClock extracts the clock of the side to move from a go line.
+func moverClock(cmd string, white bool) (int, bool) {
+	f := strings.Fields(cmd)
+	key := "btime"
+	if white {
+		key = "wtime"
+	}
+	for i := 0; i+1 < len(f); i++ {
+		if f[i] == key {
+			v := 0
+			if _, err := fmt.Sscan(f[i+1], &v); err == nil {
+				return v, true
+			}
+		}
+	}
+	return 0, false
+}
+
+// deepestInfo returns the largest depth among the info lines from position from on.
+func deepestInfo(s *uciSession, from int) int {
+	s.mu.Lock()
+	defer s.mu.Unlock()
+	best := 0
+	for _, l := range s.lines[from:] {
+		f := strings.Fields(l)
+		for i := 0; i+1 < len(f); i++ {
+			if f[0] == "info" && f[i] == "depth" {
+				d := 0
+				fmt.Sscan(f[i+1], &d)
+				if d > best {
+					best = d
+				}
+			}
+		}
+	}
+	return best
+}
+
 type goOutcome struct {
 	bestmoves []string
 	answered  bool
@@ -281,6 +319,18 @@ func c04Session(c *fw.Ctx, r *rand.Rand, idx int) {
 			}
 			mark := s.send(cmd)
 			bms, synced := closeGo(s, mark, selfEnding, delay)
+			if variant == 8 && synced {
+				// the mover's clock as sent: when it is used up (<= 0) the search ends with the first iteration
+				// or two; deeper iterations reported for such a go mean the clock was not applied at all
+				// (only where an iteration takes real time: a position without moves, or with a handful, runs
+				// through many depths before the expired timer's goroutine is even scheduled)
+				if left, given := moverClock(cmd, cur.White); given && left <= 0 && opts.Depth == 0 && len(cur.LegalMoves()) >= 15 {
+					c.Count("used_up_clock_gos", 1)
+					if d := deepestInfo(s, mark); d > 6 {
+						c.Violate("uci:clock-ignored", "%q with %d ms on the mover's clock: the search went on to depth %d: %s", cmd, left, d, what())
+					}
+				}
+			}
 			c.Eval(1)
 			c.Count("gos", 1)
 			c.Count("go_variant_"+fmt.Sprint(variant), 1)
@@ -360,7 +410,7 @@ func init() {
 			return mkCases(nil, "sessions", 64, seed, pick(tier, 4, 80))
 		},
 		Floors: func(string) map[string]int64 {
-			return map[string]int64{"sessions": 150, "gos": 800, "pos_mate": 5, "pos_stalemate": 5, "pos_claimable-threefold": 5, "pos_clock>=100": 5, "pos_single-legal-move": 3, "pos_fivefold": 5, "go_variant_8": 40, "pos_continuation": 50, "stale_timer_scenarios": 20, "null_moves_expected": 5}
+			return map[string]int64{"sessions": 150, "gos": 800, "pos_mate": 5, "pos_stalemate": 5, "pos_claimable-threefold": 5, "pos_clock>=100": 5, "pos_single-legal-move": 3, "pos_fivefold": 5, "go_variant_8": 40, "used_up_clock_gos": 3, "pos_continuation": 50, "stale_timer_scenarios": 20, "null_moves_expected": 5}
 		},
 		Run: func(c *fw.Ctx, cs fw.Case) {
 			r := cs.Rand()
